@@ -5,6 +5,7 @@ package redis
 import (
 	"encoding/json"
 	"fmt"
+	"github.com/samaritan-proxy/samaritan/host"
 	"sort"
 	"strings"
 
@@ -443,7 +444,7 @@ func init() {
 //           itself whenever the strategy in force when it was issued is MASTER
 // ---------------------------------------------------------------------------
 
-var c14sOps = []string{"strategy=MASTER", "strategy=REPLICA", "strategy=BOTH", "reads", "write", "periodic-refresh", "clusterdown-answers"}
+var c14sOps = []string{"strategy=MASTER", "strategy=REPLICA", "strategy=BOTH", "reads", "write", "periodic-refresh", "clusterdown-answers", "hosts-replaced"}
 
 type c14sCase struct {
 	Init int   `json:"init"`
@@ -509,6 +510,16 @@ func c14strategyBody(cs c14sCase) func() {
 				sched.AdvanceTime(int64(slotsRefFreq) + 1)
 				sched.WaitQuiescent()
 				s.RefreshRound()
+			case 7:
+				// service discovery delivers the host list again (the same hosts): connections are re-established, what the
+				// proxy knows about slots and replicas stays valid for the commands that follow at once
+				var hs []*host.Host
+				for _, n := range cl.Nodes {
+					hs = append(hs, host.New(n.Addr))
+				}
+				if err := s.p.OnSvcAllHostReplace(hs); err != nil {
+					sched.Fail("host-replace-rejected", err.Error())
+				}
 			case 6:
 				// the owning masters answer CLUSTERDOWN to a write and to a read (they lost their majority): the
 				// commands must not be tried on any other node because of that
